@@ -73,6 +73,15 @@ pub fn run_gate(case: &Value) -> Value {
         Ok(x) => x,
         Err(e) => return json!({"r": "ctor_err", "e": e}),
     };
+    // optional "warm_sizes": the same operator applied first, on this thread and with the same targets / controls, to |+...+> registers of
+    // OTHER sizes (results dropped; a panic there is a panic of the case): a gate call is a function of its arguments only
+    if let Some(ws) = case.get("warm_sizes").and_then(|w| w.as_array()) {
+        let warm = std::panic::catch_unwind(std::panic::AssertUnwindSafe(|| {
+            for w in ws { if let Ok(z) = State::new_plus(vu(w)) { let _ = op.apply(&z, &ts, &cs); } }
+        }));
+        if let Err(p) = warm { hook.set(10); return panic_json(p); }
+        hook.reset_hits();
+    }
     // optional "pool": run inside a rayon pool of that many worker threads (thread counts that are not powers of two)
     let pool_n = case.get("pool").map(vu);
     let r = std::panic::catch_unwind(std::panic::AssertUnwindSafe(|| match pool_n {
